@@ -638,9 +638,11 @@ def subset_ids_are_a_set(check: Check, rule: str):
         if d.kind == 'param':
           # the parameter itself may reach the store only when it already is a set: an unconditional
           # `if not isinstance(ids, set): ids = set(ids)` before it
-          conv = [nd.ast for nd in ff.cfg.nodes if nd.kind == 'if' and any(
-              isinstance(c, ast.Call) and ff.ext(c.func) == 'builtins.isinstance' and c.args and isinstance(c.args[0], ast.Name) and c.args[0].id == p_ids
-              for c in ast.walk(nd.ast.test))]
+          def only_isinstance(t):
+            while isinstance(t, ast.UnaryOp) and isinstance(t.op, ast.Not):
+              t = t.operand
+            return isinstance(t, ast.Call) and ff.ext(t.func) == 'builtins.isinstance' and t.args and isinstance(t.args[0], ast.Name) and t.args[0].id == p_ids
+          conv = [nd.ast for nd in ff.cfg.nodes if nd.kind == 'if' and only_isinstance(nd.ast.test)]
           uncond = [c for c in conv if not guards_of(ff, c, implied=False) and wmean._loop_of(ff, c) is None]
           if not uncond:
             ok = False
